@@ -341,10 +341,11 @@ class AccConn:
     # ---- sending
     def send_http(self, code, reason, body=None, ctype="application/hap+json", kind="HTTP/1.1", cuts=None, delay=0.0, ctype_name="Content-Type"):
         msg = f"{kind} {code} {reason}\r\n".encode()
+        spell = {"title": str, "lower": str.lower, "upper": str.upper}[self.acc.header_names]     # HTTP header names are case-insensitive
         if body is not None:
             if ctype is not None:
-                msg += f"{ctype_name}: {ctype}\r\n".encode()
-            msg += f"Content-Length: {len(body)}\r\n".encode()
+                msg += f"{spell(ctype_name)}: {ctype}\r\n".encode()
+            msg += f"{spell('Content-Length')}: {len(body)}\r\n".encode()
         msg += b"\r\n" + (body or b"")
         self.send_plain(msg, cuts=cuts, delay=delay)
 
@@ -427,6 +428,8 @@ class SimAccessory:
         self.on_secure = None              # callback(conn) once a session is established on the accessory side
         self.setup_handler = None          # callable(request TLV items) -> raw reply bytes for POST /pair-setup (C03 end to end)
         self.error_http = (200, "OK", "application/pairing+tlv8", "Content-Type")    # status line and content type of the "error-m2/m4" policies
+        self.verify_delay = 0.0            # the accessory takes this long to answer the last pair-verify message
+        self.header_names = "title"        # spelling of the header names in everything this accessory sends: title | lower | upper
         self.tape_m2 = None                # raw M2 of the first honest pair-verify (verify policy "tape" replays it without holding any key)
         self.write_status = {}             # (aid, iid) -> HAP status for writes
         self.subscribe_status = {}         # (aid, iid) -> HAP status for ev requests
@@ -572,7 +575,7 @@ class SimAccessory:
                 return conn.send_http(200, "OK", b"\x06\x05\x04", ctype=TLVCT)
             pv = conn.verify
             m4 = pv.handle_m3(list(d.items()))
-            conn.send_http(200, "OK", tlv_enc(m4), ctype=TLVCT)
+            conn.send_http(200, "OK", tlv_enc(m4), ctype=TLVCT, delay=self.verify_delay)
             if pv.verified:
                 conn.c2a_key = pv.key(b"Control-Salt", b"Control-Write-Encryption-Key")
                 conn.a2c_key = pv.key(b"Control-Salt", b"Control-Read-Encryption-Key")
